@@ -69,7 +69,10 @@ func parsePoKPayload(bytes []byte) (*pokPayload, error) {
 		return nil, errors.New("invalid size of PoK payload")
 	}
 
-	revealed := bitvectorToIndexes(reverseBytes(bytes[2:offset]))
+	// the bit vector is reversed in a copy: the caller's proof bytes must stay as they are (reversing them in place made a
+	// second verification of the same proof fail).
+	bitvector := append([]byte{}, bytes[2:offset]...)
+	revealed := bitvectorToIndexes(reverseBytes(bitvector))
 
 	return &pokPayload{
 		messagesCount: messagesCount,
